@@ -624,4 +624,82 @@ def item_prune_and_shims(repo, out):
         raise TranslateError('_ArrayLikeGetter.__init__: shape is not tuple(sum(c) for c in chunks)')
 
 
-ITEMS = [item_chunk_names, item_dask_names, item_npy_body, item_generate_chunks, item_prune_and_shims]
+# ---------------------------------------------------------------------------------------------------
+# chunk_metadata, put_chunk_noraise, get_chunk_or_default and the `errors` dispatch of get_dask_array (pinned)
+
+_CM_TEMPLATE = """
+try:
+    shape = tuple(s.stop - s.start for s in slices)
+except (TypeError, AttributeError):
+    raise TypeError(__M1__)
+if not all([s.step in (1, None) for s in slices]):
+    raise TypeError(__M2__)
+chunk_name = cls.join(array_name, cls.chunk_id_str(slices))
+if chunk is not None and chunk.shape != shape:
+    raise BadChunk(__M3__)
+if chunk is not None and chunk.dtype.hasobject:
+    raise BadChunk(__M4__)
+if dtype is not None and np.dtype(dtype).hasobject:
+    raise BadChunk(__M5__)
+return chunk_name, shape
+"""
+
+_NORAISE_TEMPLATE = """
+try:
+    self.put_chunk(array_name, slices, chunk)
+except ChunkStoreError as err:
+    return err
+else:
+    return None
+"""
+
+_DEFAULT_TEMPLATE = """
+try:
+    return self.get_chunk(array_name, slices, dtype)
+except ChunkNotFound:
+    chunk_name, shape = self.chunk_metadata(array_name, slices)
+    return np.full(shape, default_value, dtype)
+"""
+
+
+def item_chunk_metadata(repo, out):
+    """chunk_metadata (order of the validation steps: TypeError for the slices before BadChunk for shape / objects),
+    put_chunk_noraise and get_chunk_or_default (absorbs ChunkNotFound only) -- pinned, nothing emitted."""
+    rel = 'katdal/chunkstore.py'
+    tree = _parse(repo, rel)
+    cls = _class(tree, 'ChunkStore', rel)
+    fm = _func(cls, 'chunk_metadata', rel)
+    if ([a.arg for a in fm.args.args] != ['cls', 'array_name', 'slices', 'chunk', 'dtype']
+            or [ast.unparse(d) for d in fm.args.defaults] != ['None', 'None']):
+        raise TranslateError('chunk_metadata: unexpected signature')
+    _match(_nodoc(fm.body), ast.parse(_CM_TEMPLATE).body, {}, 'chunk_metadata')
+    fn = _func(cls, 'put_chunk_noraise', rel)
+    _match(_nodoc(fn.body), ast.parse(_NORAISE_TEMPLATE).body, {}, 'put_chunk_noraise')
+    fd = _func(cls, 'get_chunk_or_default', rel)
+    if [ast.unparse(d) for d in fd.args.defaults] != ['0']:
+        raise TranslateError('get_chunk_or_default: default_value is not 0')
+    _match(_nodoc(fd.body), ast.parse(_DEFAULT_TEMPLATE).body, {}, 'get_chunk_or_default')
+    # get_dask_array: how `errors` selects the getter
+    fg = _func(cls, 'get_dask_array', rel)
+    ifs = [n for n in fg.body if isinstance(n, ast.If) and ast.unparse(n.test).startswith('errors in')]
+    if len(ifs) != 1:
+        raise TranslateError('get_dask_array: the `errors` dispatch was not found')
+    node = ifs[0]
+    holes = {}
+    _match(node, ast.parse('''
+if errors in ('placeholder', 'dryrun'):
+    getter = self.get_chunk_or_placeholder
+    getter_kwargs['dryrun'] = errors == 'dryrun'
+elif errors == 'raise':
+    getter = self.get_chunk
+elif isinstance(errors, str):
+    raise ValueError(__MSG__)
+else:
+    getter = self.get_chunk_or_default
+    getter_kwargs['default_value'] = errors
+''').body[0], holes, 'get_dask_array (errors dispatch)')
+    if [ast.unparse(d) for d in fg.args.defaults] != ['()', '()', '0']:
+        raise TranslateError('get_dask_array: defaults of offset / index / errors changed')
+
+
+ITEMS = [item_chunk_names, item_dask_names, item_npy_body, item_generate_chunks, item_prune_and_shims, item_chunk_metadata]
